@@ -33,7 +33,7 @@ def _entry(rng, fd, allow3=True):
     for b in FLAG_BITS:
         if rng.random() < 0.3:
             flags |= b
-    closing = rng.choice(["open"] * 8 + ["readlink", "fdinfo"])
+    closing = rng.choice(["open"] * 8 + ["readlink", "fdinfo", "fdinfo_read"])
     return {"fd": fd, "kind": kind, "pos": rng.choice(POS), "flags": flags, "closing": closing,
             "extra": rng.choice(["", "mnt_id:\t25\nino:\t1234\n", "mnt_id:\t1\n"])}
 
@@ -143,7 +143,8 @@ def coq_term(case):
         es = []
         for e in case["ents"]:
             raw, ex, isreg = _paths(e, BASE)
-            cl = {"open": "StillOpen", "readlink": "ClosedBeforeReadlink", "fdinfo": "ClosedBeforeFdinfo"}[e["closing"]]
+            cl = {"open": "StillOpen", "readlink": "ClosedBeforeReadlink", "fdinfo": "ClosedBeforeFdinfo",
+                  "fdinfo_read": "ClosedDuringFdinfoRead"}[e["closing"]]
             es.append("(Build_kfd %s %s %s %s %s %s %s %s)" % (
                 G.by(str(e["fd"])), G.by(raw), G.bo(ex), G.bo(isreg), G.by(str(e["pos"])), G.by("%o" % e["flags"]),
                 G.by(e["extra"]), cl))
@@ -245,6 +246,7 @@ def impl_run(case, coq, env):
         ents = case["ents"] if k == "table" else [{"fd": case["fd"], "kind": "reg", "closing": "open"}]
         fail_readlink = set()
         nul_links = {}
+        fail_read = set()
         for idx, e in enumerate(ents):
             raw, ex, isreg = _paths(e, real_base)
             link = os.path.join(root, str(pid), "fd", str(e["fd"]))
@@ -262,7 +264,9 @@ def impl_run(case, coq, env):
                 fail_readlink.add(link)
             if e["closing"] != "fdinfo":
                 content = unB(coq["printed"][idx]) if k == "table" else bytes.fromhex(case["content"])
-                fp.write(pid, "fdinfo/%d" % e["fd"], content)
+                ipath = fp.write(pid, "fdinfo/%d" % e["fd"], content)
+                if e["closing"] == "fdinfo_read":
+                    fail_read.add(ipath)
         real_readlink = os.readlink
 
         def fake_readlink(path, *a, **kw):
@@ -273,6 +277,32 @@ def impl_run(case, coq, env):
             return real_readlink(path, *a, **kw)
         alive = case.get("alive", True)
         os.readlink = fake_readlink
+        import builtins
+        real_open = builtins.open
+
+        class _GoneFile:
+            """fdinfo file that opened fine but whose content the kernel refuses at read time"""
+            def __init__(self, path):
+                self.path = path
+
+            def __enter__(self):
+                return self
+
+            def __exit__(self, *a):
+                return False
+
+            def _fail(self, *a, **kw):
+                raise FileNotFoundError(errno.ENOENT, "No such file or directory", self.path)
+            read = readline = readlines = __iter__ = __next__ = _fail
+
+            def close(self):
+                pass
+
+        def fake_open(path, *a, **kw):
+            if path in fail_read:
+                return _GoneFile(path)
+            return real_open(path, *a, **kw)
+        builtins.open = fake_open
         real_stat = os.stat
 
         def fake_stat(path, *a, **kw):
@@ -300,6 +330,7 @@ def impl_run(case, coq, env):
         finally:
             os.readlink = real_readlink
             os.stat = real_stat
+            builtins.open = real_open
         if k == "rawinfo":
             return [res, nfds]
         return [res, nfds]
